@@ -215,7 +215,18 @@ func (ex *Exec) evalCall(e *ast.CallExpr) []Val {
 			argSig = isig // instantiated signature of a generic function
 		}
 		args := ex.evalArgs(e.Args, argSig, e.Ellipsis.IsValid())
-		return ex.dispatch(e, callee, recv, args, resTypes)
+		out := ex.dispatch(e, callee, recv, args, resTypes)
+		if ex.fc != nil && len(ex.fc.Captures) > 0 && len(ex.code) <= 1 {
+			txt := noSpace(exprString(e))
+			for _, cp := range ex.fc.Captures {
+				if strings.HasPrefix(txt, noSpace(cp.CallText)) && cp.Index < len(out) {
+					ex.st.env["$cap."+cp.Name] = out[cp.Index].T
+					ex.heapSort["$cap."+cp.Name] = out[cp.Index].T.S
+					ex.keyType["$cap."+cp.Name] = out[cp.Index].Typ
+				}
+			}
+		}
+		return out
 	}
 	// function value: closure, contracted parameter, or unknown
 	fv := ex.eval(fun)
@@ -432,6 +443,14 @@ func (ex *Exec) callValue(e *ast.CallExpr, fun ast.Expr, fv Val, sig *types.Sign
 			return ex.callParamContract(pc, n.Obj().Name(), sig, args, resTypes)
 		}
 	}
+	if id, ok := fun.(*ast.Ident); ok {
+		if v, ok := ex.info().ObjectOf(id).(*types.Var); ok && v.Pkg() != nil && v.Parent() == v.Pkg().Scope() {
+			if pc, ok := ex.prog.contracts.FuncTypes[v.Pkg().Path()+"."+v.Name()]; ok {
+				ex.assumptions["package-level function variable "+v.Pkg().Name()+"."+v.Name()+" is non-nil and behaves as its functype contract says"] = true
+				return ex.callParamContract(pc, v.Name(), sig, args, resTypes)
+			}
+		}
+	}
 	if sel, ok := fun.(*ast.SelectorExpr); ok {
 		if fc := ex.curContract(); fc != nil {
 			if pc, ok := fc.Params[exprString(sel)]; ok {
@@ -536,12 +555,18 @@ func (ex *Exec) inlineBody(name string, sig *types.Signature, ftype *ast.FuncTyp
 	if !ex.st.dead {
 		fr.exits = append(fr.exits, ex.st.clone())
 	}
-	// the function under verification without deferred calls: check the postconditions at each exit separately
-	if len(ex.frames) == 1 && ex.exitHook != nil && len(fr.defers) == 0 && len(fr.exits) > 1 && ex.quiet == 0 {
+	// the function under verification: run the deferred calls and check the postconditions at each exit separately
+	if len(ex.frames) == 1 && ex.exitHook != nil && len(fr.exits) > 1 && ex.quiet == 0 {
 		hook := ex.exitHook
 		ex.exitHook = nil
 		for xi, x := range fr.exits {
 			ex.st = x.clone()
+			for j := len(fr.defers) - 1; j >= 0 && !ex.st.dead; j-- {
+				ex.runDeferred(fr.defers[j])
+			}
+			if ex.st.dead {
+				continue
+			}
 			var outs []Val
 			for j, k := range fr.resKeys {
 				outs = append(outs, Val{ex.get(ex.st, k), fr.resTyps[j]})
@@ -887,6 +912,19 @@ func (ex *Exec) specLvalue(sc *specCtx, e ast.Expr) (string, *T, bool) {
 		}
 		return ex.ptrHeapKey(pt.Elem()), p.T, true
 	case *ast.CallExpr:
+		if id, ok := e.Fun.(*ast.Ident); ok && id.Name == "all" && len(e.Args) == 1 {
+			// all(T.f): every object's field f of struct type T
+			if sel, ok := e.Args[0].(*ast.SelectorExpr); ok {
+				t := ex.lookupType(sc.pkgOr(ex), exprString(sel.X))
+				if st := structOf(t); st != nil {
+					for i := 0; i < st.NumFields(); i++ {
+						if st.Field(i).Name() == sel.Sel.Name {
+							return ex.heapKey(t, st.Field(i)), nil, true
+						}
+					}
+				}
+			}
+		}
 		if id, ok := e.Fun.(*ast.Ident); ok {
 			if gd, ok := ex.prog.contracts.Ghosts[id.Name]; ok && !gd.Fn {
 				a := ex.specArgs(sc, e.Args)
